@@ -5,7 +5,7 @@ from __future__ import annotations
 from .. import bounds as B
 from .. import nf
 from .. import terms as T
-from ..harness import SOLVERS, A, Rec, Session, call, mcalls, method, rec_of_atoms, where_of
+from ..harness import SOLVERS, A, Rec, Session, call, mcalls, method, named, rec_of_atoms, where_of
 from ..model import AnalysisError
 
 EXPLANATION = (
@@ -113,7 +113,7 @@ def run(chk, S: Session):
                     continue
                 lin = users[0].args[0]
                 if relin:
-                    ok = len(lins) == 1 and lin is T.mk("getitem", (lins[0], 0)) and rv is not None and lins[0].args[2] is rv and lins[0].kwargs.get("t") is prop.fields["t"] and (len(lins[0].args) > 3 and lins[0].args[3] is estate or lins[0].kwargs.get("state") is estate)
+                    ok = len(lins) == 1 and lin is T.mk("getitem", (lins[0], 0)) and rv is not None and named(lins[0], "rv") is rv and named(lins[0], "t") is prop.fields["t"] and named(lins[0], "state") is estate
                     r2.require(ok, f"{name} re-linearise", "linearize(rv, state, t=proposed.t)[0] is used", f"linearisation used: {T.show(lin, 4)}; linearize calls: {[T.show(t, 3) for t in lins]}", where, cfg)
                     r2.require(len(lins) == 1 and new_state is T.mk("getitem", (lins[0], 1)), f"{name} returned state (re-linearised)", "returns the new estimator state",
                                f"returned state {T.show(new_state, 3)}", where, cfg)
